@@ -31,7 +31,9 @@
 #include <nano/datasource.h>
 #include <nano/function.h>
 #include <nano/gboost/model.h>
+#include <nano/dataset.h>
 #include <nano/generator.h>
+#include <nano/generator/elemwise_identity.h>
 #include <nano/linear.h>
 #include <nano/loss.h>
 #include <nano/lsearch0.h>
@@ -248,7 +250,23 @@ struct spec_t
     int64_t                  i[4] = {0, 0, 0, 0}; // min, value(1), [value2], max
     double                   f[4] = {0, 0, 0, 0};
     LEorLT                   c[3];
+    // the converting factory functions (kinds xint, xfloat, xipair, xfpair): every argument is an int64_t or a double
+    std::variant<int64_t, double> x[4] = {int64_t{0}, int64_t{0}, int64_t{0}, int64_t{0}};
 };
+
+std::variant<int64_t, double> read_num(toks_t& toks)
+{
+    const auto tag = toks.s();
+    if (tag == "i")
+    {
+        return toks.i64();
+    }
+    if (tag == "f")
+    {
+        return toks.f();
+    }
+    throw bad_op("a number is `i <int>` or `f <hex>`");
+}
 
 spec_t read_spec(toks_t& toks)
 {
@@ -316,6 +334,24 @@ spec_t read_spec(toks_t& toks)
         s.c[2] = comp_of(toks.s());
         s.f[3] = toks.f();
     }
+    else if (s.kind == "xint" || s.kind == "xfloat")
+    {
+        s.x[0] = read_num(toks);
+        s.c[0] = comp_of(toks.s());
+        s.x[1] = read_num(toks);
+        s.c[2] = comp_of(toks.s());
+        s.x[3] = read_num(toks);
+    }
+    else if (s.kind == "xipair" || s.kind == "xfpair")
+    {
+        s.x[0] = read_num(toks);
+        s.c[0] = comp_of(toks.s());
+        s.x[1] = read_num(toks);
+        s.c[1] = comp_of(toks.s());
+        s.x[2] = read_num(toks);
+        s.c[2] = comp_of(toks.s());
+        s.x[3] = read_num(toks);
+    }
     else
     {
         throw bad_op("unknown parameter kind " + s.kind);
@@ -349,16 +385,40 @@ parameter_t build(const std::string& name, const spec_t& s)
     {
         return parameter_t::make_integer_pair(name, s.i[0], s.c[0], s.i[1], s.c[1], s.i[2], s.c[2], s.i[3]);
     }
+    if (s.kind == "xint")
+    {
+        return std::visit([&](const auto mn, const auto v, const auto mx)
+                          { return parameter_t::make_integer(name, mn, s.c[0], v, s.c[2], mx); }, s.x[0], s.x[1], s.x[3]);
+    }
+    if (s.kind == "xfloat")
+    {
+        return std::visit([&](const auto mn, const auto v, const auto mx)
+                          { return parameter_t::make_scalar(name, mn, s.c[0], v, s.c[2], mx); }, s.x[0], s.x[1], s.x[3]);
+    }
+    if (s.kind == "xipair")
+    {
+        return std::visit([&](const auto mn, const auto v1, const auto v2, const auto mx)
+                          { return parameter_t::make_integer_pair(name, mn, s.c[0], v1, s.c[1], v2, s.c[2], mx); },
+                          s.x[0], s.x[1], s.x[2], s.x[3]);
+    }
+    if (s.kind == "xfpair")
+    {
+        return std::visit([&](const auto mn, const auto v1, const auto v2, const auto mx)
+                          { return parameter_t::make_scalar_pair(name, mn, s.c[0], v1, s.c[1], v2, s.c[2], mx); },
+                          s.x[0], s.x[1], s.x[2], s.x[3]);
+    }
     return parameter_t::make_scalar_pair(name, s.f[0], s.c[0], s.f[1], s.c[1], s.f[2], s.c[2], s.f[3]);
 }
 
 // ---- one operation on a parameter ------------------------------------------------------------------------
 struct op_t
 {
-    std::string kind;
-    int64_t     i1 = 0, i2 = 0;
-    double      f1 = 0, f2 = 0;
-    std::string s;
+    std::string             kind;
+    int64_t                 i1 = 0, i2 = 0;
+    uint64_t                u1 = 0;
+    double                  f1 = 0, f2 = 0;
+    std::string             s;
+    std::shared_ptr<spec_t> other; // `eq`: the parameter this one is compared with
 };
 
 op_t read_op(toks_t& toks)
@@ -398,6 +458,57 @@ op_t read_op(toks_t& toks)
     else if (op.kind == "ri" || op.kind == "rf" || op.kind == "rpi" || op.kind == "rpf" || op.kind == "rs" ||
              op.kind == "re" || op.kind == "wr")
     {
+    }
+    // the rest of the interface (family `paramx`): the other arithmetic overloads of operator=, the narrowing reads, operator==
+    else if (op.kind == "si32")
+    {
+        op.i1 = toks.i64();
+        if (op.i1 != static_cast<int32_t>(op.i1))
+        {
+            throw bad_op("si32 needs a 32 bit value");
+        }
+    }
+    else if (op.kind == "su64")
+    {
+        const auto& w = toks.s();
+        size_t      pos = 0;
+        if (w.empty() || w[0] == '-' || w[0] == '+')
+        {
+            throw bad_op("su64 needs an unsigned value");
+        }
+        op.u1 = std::stoull(w, &pos, 10);
+        if (pos != w.size())
+        {
+            throw bad_op("su64 needs an unsigned value");
+        }
+    }
+    else if (op.kind == "sb")
+    {
+        op.i1 = toks.i64();
+        if (op.i1 != 0 && op.i1 != 1)
+        {
+            throw bad_op("sb takes 0 or 1");
+        }
+    }
+    else if (op.kind == "sf32")
+    {
+        op.f1 = toks.f();
+        if (!std::isnan(op.f1) && static_cast<double>(static_cast<float>(op.f1)) != op.f1)
+        {
+            throw bad_op("sf32 needs a binary32 value");
+        }
+    }
+    else if (op.kind == "ri32" || op.kind == "ru64" || op.kind == "rf32" || op.kind == "rpi32" || op.kind == "rpf32")
+    {
+    }
+    else if (op.kind == "eq")
+    {
+        op.i1 = toks.i64();
+        if (op.i1 != 0 && op.i1 != 1)
+        {
+            throw bad_op("eq takes 0 or 1 (same name?)");
+        }
+        op.other = std::make_shared<spec_t>(read_spec(toks));
     }
     else
     {
@@ -467,6 +578,70 @@ std::string apply_op(parameter_t& param, const op_t& op)
             {
                 out << enc(scat(param.value<vh_enum>()));
             }
+            else if (op.kind == "si32")
+            {
+                param = static_cast<int32_t>(op.i1);
+            }
+            else if (op.kind == "su64")
+            {
+                param = op.u1;
+            }
+            else if (op.kind == "sb")
+            {
+                param = (op.i1 != 0);
+            }
+            else if (op.kind == "sf32")
+            {
+                param = static_cast<float>(op.f1);
+            }
+            else if (op.kind == "ri32")
+            {
+                out << static_cast<int64_t>(param.value<int32_t>());
+            }
+            else if (op.kind == "ru64")
+            {
+                // static_cast<uint64_t>(double) is undefined for negative values: a scalar parameter is not read that way
+                // (neither does the library, see Gen/ParamReads.lean)
+                if (std::get_if<parameter_t::frange_t>(&param.storage()) != nullptr)
+                {
+                    return std::string{"na"};
+                }
+                out << std::to_string(param.value<uint64_t>());
+            }
+            else if (op.kind == "rf32")
+            {
+                out << static_cast<double>(param.value<float>());
+            }
+            else if (op.kind == "rpi32")
+            {
+                const auto [v1, v2] = param.value_pair<int32_t>();
+                out << static_cast<int64_t>(v1) << static_cast<int64_t>(v2);
+            }
+            else if (op.kind == "rpf32")
+            {
+                const auto [v1, v2] = param.value_pair<float>();
+                out << static_cast<double>(v1) << static_cast<double>(v2);
+            }
+            else if (op.kind == "eq")
+            {
+                parameter_t other;
+                try
+                {
+                    other = build(op.i1 != 0 ? param.name() : param.name() + "'", *op.other);
+                }
+                catch (const std::exception&)
+                {
+                    return std::string{"noother"};
+                }
+                const auto e1 = param == other;
+                const auto e2 = other == param;
+                const auto n1 = param != other;
+                if (e1 != e2 || e1 == n1)
+                {
+                    return std::string{"ok inconsistent"};
+                }
+                out << (e1 ? 1 : 0);
+            }
             else if (op.kind == "wr")
             {
                 std::ostringstream os;
@@ -483,7 +658,13 @@ std::string apply_op(parameter_t& param, const op_t& op)
         });
 }
 
-std::string param_hist(toks_t& toks)
+// `show`: what `operator<<` prints for the value, the domain and the whole parameter (monitored by the python oracle only)
+std::string shown(const parameter_t& param)
+{
+    return " @ " + enc(scat(param.value())) + " " + enc(scat(param.domain())) + " " + enc(scat(param));
+}
+
+std::string param_hist(toks_t& toks, const bool show = false)
 {
     const auto        spec = read_spec(toks);
     const auto        n    = toks.i64();
@@ -509,10 +690,10 @@ std::string param_hist(toks_t& toks)
         return made;
     }
     out_t out;
-    out << "ok" << state_of(param);
+    out << "ok" << state_of(param) + (show ? shown(param) : std::string{});
     for (const auto& op : ops)
     {
-        out << ";" << apply_op(param, op) << "/" << state_of(param);
+        out << ";" << apply_op(param, op) << "/" << state_of(param) + (show ? shown(param) : std::string{});
     }
     return out.str();
 }
@@ -550,7 +731,7 @@ std::string config_hist(toks_t& toks)
                 throw bad_op("config() is exercised with integers, scalars and strings");
             }
         }
-        else if (cop.kind != "has")
+        else if (cop.kind != "has" && cop.kind != "copy")
         {
             throw bad_op("unknown configurable op " + cop.kind);
         }
@@ -577,6 +758,27 @@ std::string config_hist(toks_t& toks)
             const auto* p  = c.parameter_if(cop.name);
             const auto* cp = static_cast<const configurable_t&>(c).parameter_if(cop.name);
             res            = std::string("ok ") + ((p != nullptr && p == cp) ? "1" : (p == cp ? "0" : "mismatch"));
+        }
+        else if (cop.kind == "copy")
+        {
+            // copy construction, copy assignment, move construction, move assignment: the registered parameters travel
+            // (configurable.h:25-32, all defaulted); the history continues on the copy of the copy
+            configurable_t d{c};
+            configurable_t e;
+            e.register_parameter(parameter_t::make_string("to-be-overwritten", "x"));
+            e = d;
+            configurable_t f{std::move(e)};
+            auto same = d.parameters().size() == c.parameters().size() && f.parameters().size() == c.parameters().size();
+            for (size_t k = 0; same && k < c.parameters().size(); ++k)
+            {
+                same = state_of(d.parameters()[k]) == state_of(c.parameters()[k]) &&
+                       d.parameters()[k].name() == c.parameters()[k].name() &&
+                       state_of(f.parameters()[k]) == state_of(c.parameters()[k]) &&
+                       f.parameters()[k].name() == c.parameters()[k].name() &&
+                       (c.parameters()[k] == f.parameters()[k]);
+            }
+            c   = std::move(f);
+            res = std::string("ok ") + (same ? "1" : "0");
         }
         else if (cop.kind == "get")
         {
@@ -743,6 +945,284 @@ bool same_doubles(const std::vector<double>& a, const std::vector<double>& b)
     return true;
 }
 
+
+// ---- behavioural probes of the other kinds -----------------------------------------------------------------------
+// a line-search on a fixed state, twice (the interface is const: the second answer must be the first one); every number
+// of every answer is compared bit by bit between the original and the clone
+std::vector<double> use_lsearchk(const lsearchk_t& lsearchk)
+{
+    std::vector<double> answers;
+    for (int call = 0; call < 2; ++call)
+    {
+        const auto function = function_t::all().get("rosenbrock")->make(2, 10);
+        vector_t   x(2);
+        x(0)       = -1.2;
+        x(1)       = 1.0;
+        auto state = solver_state_t{*function, x};
+        vector_t descent(2);
+        for (tensor_size_t i = 0; i < 2; ++i)
+        {
+            descent(i) = -state.gx()(i);
+        }
+        try
+        {
+            const auto [ok, t] = lsearchk.get(state, descent, 1e-3, make_null_logger());
+            answers.push_back(ok ? 1.0 : 0.0);
+            answers.push_back(t);
+            answers.push_back(state.fx());
+            answers.push_back(state.x()(0));
+            answers.push_back(state.x()(1));
+            answers.push_back(static_cast<double>(function->fcalls()));
+        }
+        catch (const std::exception&)
+        {
+            answers.push_back(-777.0);
+        }
+    }
+    return answers;
+}
+
+int probe_lsearchk(const lsearchk_t& a, const lsearchk_t& b)
+{
+    const auto r1 = use_lsearchk(a);
+    // the two calls of one run answer the same: no state is kept between calls
+    const auto half = r1.size() / 2U;
+    if (r1.size() % 2U != 0U ||
+        !same_doubles(std::vector<double>(r1.begin(), r1.begin() + static_cast<std::ptrdiff_t>(half)),
+                      std::vector<double>(r1.begin() + static_cast<std::ptrdiff_t>(half), r1.end())))
+    {
+        return -1;
+    }
+    return same_doubles(r1, use_lsearchk(b)) ? 1 : 0;
+}
+
+// a tuner on a tiny grid with a fixed (deterministic) callback
+std::vector<double> use_tuner(const tuner_t& tuner)
+{
+    tensor1d_t grid1(5);
+    tensor1d_t grid2(4);
+    for (tensor_size_t i = 0; i < 5; ++i)
+    {
+        grid1(i) = 0.1 * static_cast<double>(i + 1);
+    }
+    for (tensor_size_t i = 0; i < 4; ++i)
+    {
+        grid2(i) = std::pow(10.0, static_cast<double>(i) - 2.0);
+    }
+    param_spaces_t spaces;
+    spaces.emplace_back("p1", param_space_t::type::linear, grid1);
+    spaces.emplace_back("p2", param_space_t::type::log10, grid2);
+    const auto callback = [](const tensor2d_t& params)
+    {
+        tensor1d_t values(params.size<0>());
+        for (tensor_size_t t = 0; t < params.size<0>(); ++t)
+        {
+            const auto p1 = params(t, 0);
+            const auto p2 = params(t, 1);
+            values(t)     = (p1 - 0.33) * (p1 - 0.33) + 0.1 * (std::log10(p2) + 0.4) * (std::log10(p2) + 0.4);
+        }
+        return values;
+    };
+    std::vector<double> answers;
+    try
+    {
+        const auto steps = tuner.optimize(spaces, callback, make_null_logger());
+        for (const auto& step : steps)
+        {
+            for (tensor_size_t i = 0; i < step.m_igrid.size(); ++i)
+            {
+                answers.push_back(static_cast<double>(step.m_igrid(i)));
+            }
+            for (tensor_size_t i = 0; i < step.m_param.size(); ++i)
+            {
+                answers.push_back(step.m_param(i));
+            }
+            answers.push_back(step.m_value);
+        }
+    }
+    catch (const std::exception&)
+    {
+        answers.push_back(-777.0);
+    }
+    return answers;
+}
+
+int probe_tuner(const tuner_t& a, const tuner_t& b)
+{
+    const auto r1 = use_tuner(a);
+    if (!same_doubles(r1, use_tuner(a)))
+    {
+        return -1;
+    }
+    return same_doubles(r1, use_tuner(b)) ? 1 : 0;
+}
+
+// a tiny fixed dataset for the weak learners: two scalar features, a categorical and a multi-label one, missing values
+class vh_datasource_t final : public datasource_t
+{
+public:
+    vh_datasource_t()
+        : datasource_t("c19")
+    {
+    }
+
+    rdatasource_t clone() const override { return std::make_unique<vh_datasource_t>(*this); }
+
+    static constexpr tensor_size_t samples = 80;
+
+private:
+    void do_load() override
+    {
+        features_t features;
+        features.push_back(feature_t{"x0"}.scalar(feature_type::float64));
+        features.push_back(feature_t{"x1"}.scalar(feature_type::float64));
+        features.push_back(feature_t{"s"}.sclass(3U));
+        features.push_back(feature_t{"m"}.mclass(3U));
+        features.push_back(feature_t{"target"}.scalar(feature_type::float64, make_dims(1, 1, 1)));
+        resize(samples, features, 4U);
+        for (tensor_size_t i = 0; i < samples; ++i)
+        {
+            const auto u = static_cast<double>((i * 7) % 80) / 80.0;
+            if (i % 11 != 10)
+            {
+                set(i, 0, u - 0.5);
+            }
+            set(i, 1, std::sin(static_cast<double>(i)) * 2.0);
+            if (i % 9 != 8)
+            {
+                set(i, 2, static_cast<int64_t>((i * 5) % 3));
+            }
+            tensor_mem_t<int8_t, 1> hits(3);
+            for (tensor_size_t c = 0; c < 3; ++c)
+            {
+                hits(c) = static_cast<int8_t>(((i + 1) >> c) & 1);
+            }
+            set(i, 3, hits);
+            set(i, 4, 0.0);
+        }
+    }
+};
+
+const dataset_t& probe_dataset()
+{
+    static vh_datasource_t datasource = []()
+    {
+        vh_datasource_t d;
+        d.load();
+        return d;
+    }();
+    static const dataset_t dataset = []()
+    {
+        dataset_t d{datasource, 1U};
+        d.add<sclass_identity_generator_t>();
+        d.add<mclass_identity_generator_t>();
+        d.add<scalar_identity_generator_t>();
+        return d;
+    }();
+    return dataset;
+}
+
+tensor4d_t probe_gradients()
+{
+    tensor4d_t gradients(vh_datasource_t::samples, 1, 1, 1);
+    for (tensor_size_t i = 0; i < vh_datasource_t::samples; ++i)
+    {
+        const auto u     = static_cast<double>((i * 7) % 80) / 80.0;
+        gradients(i)     = (u < 0.4 ? -1.5 : 0.75) + 0.3 * std::cos(static_cast<double>(3 * i)) + (i % 3 == 0 ? 0.5 : 0.0);
+    }
+    return gradients;
+}
+
+std::vector<double> predictions_of(const wlearner_t& wlearner)
+{
+    const auto&         dataset = probe_dataset();
+    std::vector<double> answers;
+    try
+    {
+        const auto outputs = wlearner.predict(dataset, arange(0, vh_datasource_t::samples));
+        for (tensor_size_t i = 0; i < outputs.size(); ++i)
+        {
+            answers.push_back(outputs(i));
+        }
+        for (const auto feature : wlearner.features())
+        {
+            answers.push_back(static_cast<double>(feature));
+        }
+    }
+    catch (const std::exception&)
+    {
+        answers.push_back(-777.0);
+    }
+    return answers;
+}
+
+// fits a and b (when they are not fitted yet ... a weak learner can be fitted again) on the fixed dataset: scores and
+// predictions must agree bit by bit; then the clone taken AFTER the fit must predict like the fitted original
+int probe_wlearner(wlearner_t& a, wlearner_t& b)
+{
+    const auto& dataset   = probe_dataset();
+    const auto  gradients = probe_gradients();
+    const auto  samples   = arange(0, vh_datasource_t::samples);
+    try
+    {
+        const auto s1 = a.fit(dataset, samples, gradients);
+        const auto s2 = (&a == &b) ? s1 : b.fit(dataset, samples, gradients);
+        if (!same_bits(s1, s2) || !same_doubles(predictions_of(a), predictions_of(b)))
+        {
+            return 0;
+        }
+        const auto fitted = a.clone();
+        if (std::getenv("VH_DEBUG") != nullptr)
+        {
+            double sum = 0.0;
+            for (const auto v : predictions_of(a))
+            {
+                sum += std::fabs(v);
+            }
+            std::fprintf(stderr, "probe_wlearner: %s score %g sum|pred| %g\n", a.type_id().c_str(), s1, sum);
+        }
+        return same_doubles(predictions_of(a), predictions_of(*fitted)) ? 1 : 0;
+    }
+    catch (const std::exception& e)
+    {
+        if (std::getenv("VH_DEBUG") != nullptr)
+        {
+            std::fprintf(stderr, "probe_wlearner: %s\n", e.what());
+        }
+        return -1;
+    }
+}
+
+// a generator fitted on the fixed datasource: the clone taken after the fit generates the same features
+std::vector<std::string> use_generator(generator_t& generator, const bool fit)
+{
+    std::vector<std::string> answers;
+    try
+    {
+        if (fit)
+        {
+            static vh_datasource_t datasource = []()
+            {
+                vh_datasource_t d;
+                d.load();
+                return d;
+            }();
+            generator.fit(datasource);
+        }
+        answers.push_back(std::to_string(generator.features()));
+        for (tensor_size_t i = 0; i < generator.features(); ++i)
+        {
+            const auto feature = generator.feature(i);
+            answers.push_back(feature.name() + "/" + scat(feature.type()) + "/" + std::to_string(::nano::size(feature.dims())));
+        }
+    }
+    catch (const std::exception&)
+    {
+        answers.emplace_back("throw");
+    }
+    return answers;
+}
+
 // behavioural probe: -1 = not applicable, 1 = original and clone give bit-identical answers, 0 = they differ
 template <class tobject>
 int probe(const tobject& original, const tobject& clone)
@@ -812,6 +1292,10 @@ int probe(const tobject& original, const tobject& clone)
         // solvers drawing from std::random_device are not comparable run to run: applicable only when the
         // original reproduces itself
         const auto& sid = original.type_id();
+        if (original.type() != clone.type())
+        {
+            return 0;
+        }
         if (sid == "gs" || sid == "ags" || sid == "gs-lbfgs" || sid == "ags-lbfgs")
         {
             return -1;
@@ -823,6 +1307,28 @@ int probe(const tobject& original, const tobject& clone)
             return -1;
         }
         return same_doubles(r1, run_solver(clone)) ? 1 : 0;
+    }
+    else if constexpr (std::is_same_v<tobject, lsearchk_t>)
+    {
+        return probe_lsearchk(original, clone);
+    }
+    else if constexpr (std::is_same_v<tobject, tuner_t>)
+    {
+        return probe_tuner(original, clone);
+    }
+    else if constexpr (std::is_same_v<tobject, wlearner_t>)
+    {
+        // the walk hands in const objects: the fits run on copies
+        const auto a = original.clone();
+        const auto b = clone.clone();
+        return probe_wlearner(*a, *b);
+    }
+    else if constexpr (std::is_same_v<tobject, generator_t>)
+    {
+        const auto a = original.clone();
+        const auto r = use_generator(*a, true);
+        const auto b = a->clone();
+        return (r == use_generator(*b, false) && use_generator(*original.clone(), true) == use_generator(*clone.clone(), true)) ? 1 : 0;
     }
     else
     {
@@ -1046,6 +1552,11 @@ bool draws_unseeded(const solver_t& solver)
 
 int probe_solvers(const solver_t& a, const solver_t& b)
 {
+    // what the solver says about itself besides its parameters travels with a copy as well
+    if (a.type() != b.type())
+    {
+        return 0;
+    }
     if (draws_unseeded(a) || draws_unseeded(b))
     {
         return -1;
@@ -1439,6 +1950,19 @@ int probe_vars(const var_t& a, const var_t& b)
     {
         return probe_splitters(*a.splitter, *b.splitter);
     }
+    if (a.kind == "lsearchk")
+    {
+        return probe_lsearchk(*a.lsearchk, *b.lsearchk);
+    }
+    if (a.kind == "tuner")
+    {
+        return probe_tuner(*a.tuner, *b.tuner);
+    }
+    if (a.kind == "wlearner")
+    {
+        // leaves both FITTED: a clone taken afterwards is the clone of a fitted weak learner
+        return probe_wlearner(*a.wlearner, *b.wlearner);
+    }
     if (a.kind == "params")
     {
         const auto p1 = probe_solvers(a.params->solver(), b.params->solver());
@@ -1703,15 +2227,215 @@ std::string owner_hist(toks_t& toks, std::string& aug)
     }
     return out.str();
 }
+
+// ---- a factory of our own: factory_t<vh_object_t> histories ----------------------------------------------------
+//   fact hist <n> <fop>*n
+//       add <'id> <default> <'descr>      factory.add<vh_object_t>(descr, id, default)   -> ok 0|1 / throw
+//       has <'id> | size | desc <'id>     factory.has / size / description
+//       get <'id>                         factory.get(id): null, or the object becomes a new variable
+//       ids <any|lit|pre|suf|sub> <'s>    factory.ids(std::regex(...))
+//       setp <v> <'name> <assignment>     an assignment to a parameter of a got object
+//       clonev <v>                        the clone of a got object becomes a new variable
+//   after every operation: the variables, and what get(id) hands out NOW for every registered id
+class vh_object_t : public typed_t, public configurable_t, public clonable_t<vh_object_t>
+{
+public:
+    vh_object_t(string_t id, const int64_t value)
+        : typed_t(std::move(id))
+    {
+        register_parameter(parameter_t::make_integer("p", 0, LE, value, LE, 10));
+    }
+
+    std::unique_ptr<vh_object_t> clone() const override { return std::make_unique<vh_object_t>(*this); }
+};
+
+std::string regex_text(const std::string& kind, const std::string& frag)
+{
+    for (const auto c : frag)
+    {
+        if (!((c >= 'a' && c <= 'z') || (c >= '0' && c <= '9') || c == '-'))
+        {
+            throw bad_op("pattern fragments are made of [a-z0-9-]");
+        }
+    }
+    if (kind == "any")
+    {
+        return ".+";
+    }
+    if (kind == "lit")
+    {
+        return frag;
+    }
+    if (kind == "pre")
+    {
+        return frag + ".*";
+    }
+    if (kind == "suf")
+    {
+        return ".*" + frag;
+    }
+    if (kind == "sub")
+    {
+        return ".*" + frag + ".*";
+    }
+    throw bad_op("unknown pattern kind " + kind);
+}
+
+std::string fact_hist(toks_t& toks)
+{
+    struct fop_t
+    {
+        std::string kind, id, text;
+        int64_t     a = 0;
+        op_t        op;
+    };
+
+    const auto         n = toks.i64();
+    std::vector<fop_t> fops;
+    for (int64_t k = 0; k < n; ++k)
+    {
+        fop_t o;
+        o.kind = toks.s();
+        if (o.kind == "add")
+        {
+            o.id   = dec(toks.s());
+            o.a    = toks.i64();
+            o.text = dec(toks.s());
+        }
+        else if (o.kind == "has" || o.kind == "desc" || o.kind == "get")
+        {
+            o.id = dec(toks.s());
+        }
+        else if (o.kind == "size")
+        {
+        }
+        else if (o.kind == "ids")
+        {
+            o.id   = toks.s();
+            o.text = regex_text(o.id, dec(toks.s()));
+        }
+        else if (o.kind == "setp")
+        {
+            o.a  = toks.i64();
+            o.id = dec(toks.s());
+            o.op = read_op(toks);
+            if (o.op.kind != "si" && o.op.kind != "sf" && o.op.kind != "ss")
+            {
+                throw bad_op("setp takes si / sf / ss");
+            }
+        }
+        else if (o.kind == "clonev")
+        {
+            o.a = toks.i64();
+        }
+        else
+        {
+            throw bad_op("unknown factory op " + o.kind);
+        }
+        fops.push_back(o);
+    }
+    if (!toks.done())
+    {
+        throw bad_op("trailing tokens");
+    }
+
+    factory_t<vh_object_t>                    factory;
+    std::vector<std::unique_ptr<vh_object_t>> vars;
+    const auto var = [&](const int64_t i) -> vh_object_t&
+    {
+        if (i < 0 || static_cast<size_t>(i) >= vars.size())
+        {
+            throw bad_op("no variable " + std::to_string(i));
+        }
+        return *vars[static_cast<size_t>(i)];
+    };
+
+    out_t out;
+    out << "ok";
+    for (const auto& o : fops)
+    {
+        std::string res;
+        if (o.kind == "add")
+        {
+            res = guarded([&]() -> std::string
+                          { return factory.add<vh_object_t>(o.text, o.id, o.a) ? "ok 1" : "ok 0"; });
+        }
+        else if (o.kind == "has")
+        {
+            res = factory.has(o.id) ? "ok 1" : "ok 0";
+        }
+        else if (o.kind == "size")
+        {
+            res = "ok " + std::to_string(factory.size());
+        }
+        else if (o.kind == "desc")
+        {
+            res = "ok " + enc(factory.description(o.id));
+        }
+        else if (o.kind == "get")
+        {
+            auto object = factory.get(o.id);
+            if (!object)
+            {
+                res = "null";
+            }
+            else
+            {
+                res = "ok " + text_of(tree_of(*object));
+                vars.push_back(std::move(object));
+            }
+        }
+        else if (o.kind == "ids")
+        {
+            out_t r;
+            r << "ok";
+            const auto ids = o.id == "any" ? factory.ids() : factory.ids(std::regex(o.text));
+            r << static_cast<long long>(ids.size());
+            for (const auto& id : ids)
+            {
+                r << enc(id);
+            }
+            res = r.str();
+        }
+        else if (o.kind == "setp")
+        {
+            auto& object = var(o.a);
+            res          = guarded([&]() -> std::string { return apply_op(object.parameter(o.id), o.op); });
+        }
+        else
+        {
+            auto copy = var(o.a).clone();
+            res       = "ok " + text_of(tree_of(*copy));
+            vars.push_back(std::move(copy));
+        }
+        out << ";" << res << "/" << static_cast<long long>(vars.size());
+        for (const auto& v : vars)
+        {
+            print_tree(out, tree_of(*v));
+        }
+        const auto ids = factory.ids(std::regex(".*"));
+        out << static_cast<long long>(ids.size());
+        for (const auto& id : ids)
+        {
+            out << enc(id);
+            print_tree(out, tree_of(*factory.get(id)));
+        }
+    }
+    return out.str();
+}
 } // namespace
 
 std::string vh::execute(toks_t& toks, std::string& aug)
 {
     const auto fam = toks.s();
     const auto op  = toks.s();
-    if (fam == "param" && op == "hist")
+    if ((fam == "param" || fam == "paramx") && op == "hist")
     {
         return param_hist(toks);
+    }
+    if (fam == "paramshow" && op == "hist")
+    {
+        return param_hist(toks, true);
     }
     if (fam == "config" && op == "hist")
     {
@@ -1720,6 +2444,29 @@ std::string vh::execute(toks_t& toks, std::string& aug)
     if (fam == "owner" && op == "hist")
     {
         return owner_hist(toks, aug);
+    }
+    if (fam == "fact" && op == "hist")
+    {
+        return fact_hist(toks);
+    }
+    if (fam == "factory" && op == "idsre")
+    {
+        const auto f    = toks.s();
+        const auto kind = toks.s();
+        const auto text = regex_text(kind, dec(toks.s()));
+        return with_factory(f,
+                            [&](const auto& factory)
+                            {
+                                out_t out;
+                                out << "ok";
+                                const auto ids = factory.ids(std::regex(text));
+                                out << static_cast<long long>(ids.size());
+                                for (const auto& id : ids)
+                                {
+                                    out << enc(id);
+                                }
+                                return out.str();
+                            });
     }
     if (fam == "factory" && op == "ids")
     {
